@@ -109,6 +109,14 @@ func streamEst(o opts) {
 				}
 			}
 		}
+		// the harness's own count of observations since the last aging event or clear: an aging event is due exactly
+		// when it reaches the period, never earlier (estimates are only allowed to drop at a period boundary)
+		mine, _ := e.Samples()
+		early := func(what string) {
+			if mine+1 < resetAt {
+				m.violate("C19", fmt.Sprintf("aging event after only %d observations since the last aging / clear (%s, period %d, capacity %d): estimates were halved inside an aging period", mine+1, what, resetAt, capacity), "est trace "+fmt.Sprint(t))
+			}
+		}
 		for i := 0; i < nops; i++ {
 			switch k := r.Intn(100); {
 			case k < 55: // record
@@ -125,9 +133,12 @@ func streamEst(o opts) {
 				s1, _ := e.Samples()
 				aged := s1 < s0+1
 				if aged {
+					early("a record")
+					mine = 0
 					agings++
 					count = map[uint64]int{}
 				} else {
+					mine++
 					count[h]++
 					for _, x := range dom {
 						if after := e.Estimate(x); after < before[x] {
@@ -152,6 +163,7 @@ func streamEst(o opts) {
 			case k < 90:
 				e.Clear()
 				count = map[uint64]int{}
+				mine = 0
 				w.O(ints(4), &toks{})
 				m.count("clear")
 			default: // tick burst; sometimes drive to the aging point
@@ -174,7 +186,11 @@ func streamEst(o opts) {
 					e.Tick()
 					b, _ := e.Samples()
 					if b < a+1 {
+						early("a tick")
+						mine = 0
 						ag++
+					} else {
+						mine++
 					}
 				}
 				if ag > 0 {
